@@ -829,11 +829,9 @@ def run_fault(hist, mode):
             if mode == 'crash':
                 w.crash()
             else:
-                # an application that goes on using the object after an error: pending work of the failed call is rolled back
-                try:
-                    w.kc.conn._c.rollback()
-                except Exception:  # noqa
-                    pass
+                # an application that goes on using the same keychain object after the error (it has no way to roll anything back
+                # itself: the operation that failed must not leave pending work behind)
+                pass
             w.resync()
             # repeat the operation
             applicable, call = w.perform(last)
